@@ -179,11 +179,13 @@ func (s *subscriberImpl[T]) NextWithContext(ctx context.Context, v T) {
 	}
 
 	if s.backpressure == BackpressureDrop {
+		verifPoint("subscriber:NextWithContext:trylock", s)
 		if !s.mu.TryLock() {
 			OnDroppedNotification(ctx, NewNotificationNext(v))
 			return
 		}
 	} else {
+		verifPoint("subscriber:NextWithContext:lock#0", s)
 		s.mu.Lock()
 	}
 
@@ -194,6 +196,7 @@ func (s *subscriberImpl[T]) NextWithContext(ctx context.Context, v T) {
 	}
 
 	s.mu.Unlock()
+	verifPoint("subscriber:NextWithContext:unlocked#0", s)
 }
 
 // Implements Observer.
@@ -203,6 +206,7 @@ func (s *subscriberImpl[T]) Error(err error) {
 
 // Implements Observer.
 func (s *subscriberImpl[T]) ErrorWithContext(ctx context.Context, err error) {
+	verifPoint("subscriber:ErrorWithContext:lock#0", s)
 	s.mu.Lock()
 
 	if atomic.CompareAndSwapInt32(&s.status, 0, 1) {
@@ -214,6 +218,7 @@ func (s *subscriberImpl[T]) ErrorWithContext(ctx context.Context, err error) {
 	}
 
 	s.mu.Unlock()
+	verifPoint("subscriber:ErrorWithContext:unlocked#0", s)
 
 	s.unsubscribe()
 }
@@ -225,6 +230,7 @@ func (s *subscriberImpl[T]) Complete() {
 
 // Implements Observer.
 func (s *subscriberImpl[T]) CompleteWithContext(ctx context.Context) {
+	verifPoint("subscriber:CompleteWithContext:lock#0", s)
 	s.mu.Lock()
 
 	if atomic.CompareAndSwapInt32(&s.status, 0, 2) {
@@ -236,6 +242,7 @@ func (s *subscriberImpl[T]) CompleteWithContext(ctx context.Context) {
 	}
 
 	s.mu.Unlock()
+	verifPoint("subscriber:CompleteWithContext:unlocked#0", s)
 
 	s.unsubscribe()
 }
@@ -258,6 +265,7 @@ func (s *subscriberImpl[T]) IsCompleted() bool {
 // Implements Observer.
 func (s *subscriberImpl[T]) Unsubscribe() {
 	if atomic.CompareAndSwapInt32(&s.status, 0, 2) {
+		verifPoint("subscriber:Unsubscribe:cas", s)
 		s.unsubscribe()
 	}
 }
